@@ -8,6 +8,7 @@ import (
 	"net"
 	"strconv"
 	"strings"
+	"sync"
 	"time"
 
 	"hop.computer/hop/certs"
@@ -448,6 +449,61 @@ func (w *SessionWorld) Exec(f []string) string {
 			return "err"
 		}
 		return fmt.Sprintf("dst=%d", AddrIndex(ds[0].Dst))
+	case len(f) == 4 && f[0] == "cwr":
+		// concurrent writers on one endpoint: every packet gets its own counter, nothing is lost
+		r, ok := w.parseEp(f[1])
+		nw, ok2 := u(f[2])
+		each, ok3 := u(f[3])
+		if !ok || !ok2 || !ok3 || nw == 0 || nw > 16 || each == 0 || each > 64 {
+			return "bad-op"
+		}
+		c := w.msgConn(r)
+		var wg sync.WaitGroup
+		errs := make(chan error, int(nw*each))
+		for g := uint64(0); g < nw; g++ {
+			wg.Add(1)
+			go func(g uint64) {
+				defer wg.Done()
+				for k := uint64(0); k < each; k++ {
+					msg := []byte(fmt.Sprintf("cw-%02d-%02d", g, k))
+					if err := c.WriteMsg(msg); err != nil {
+						errs <- err
+					}
+				}
+			}(g)
+		}
+		wg.Wait()
+		close(errs)
+		ds := w.conn(r).Drain()
+		for k, d := range ds {
+			w.pkts[fmt.Sprintf("%d.%d", w.line, k)] = d.Data
+			w.Wire = append(w.Wire, d.Data)
+		}
+		if len(errs) > 0 {
+			return "err"
+		}
+		seen := map[uint64]bool{}
+		lo, hi := ^uint64(0), uint64(0)
+		for _, d := range ds {
+			if len(d.Data) < 16 {
+				return "short-packet"
+			}
+			ctr := binary.BigEndian.Uint64(d.Data[8:16])
+			if seen[ctr] {
+				return "duplicate-counter"
+			}
+			seen[ctr] = true
+			if ctr < lo {
+				lo = ctr
+			}
+			if ctr > hi {
+				hi = ctr
+			}
+		}
+		if uint64(len(ds)) != nw*each || hi-lo+1 != nw*each {
+			return fmt.Sprintf("packets=%d span=%d", len(ds), hi-lo+1)
+		}
+		return fmt.Sprintf("ok n=%d", nw*each)
 	case len(f) == 2 && f[0] == "close":
 		r, ok := w.parseEp(f[1])
 		if !ok {
